@@ -89,9 +89,14 @@ func c16Exec(pool []geojson.Object, op c16Op) string {
 		return a.Members()
 	case 11:
 		if cl, ok := a.(geojson.Collection); ok {
-			n := 0
-			cl.Search(b.Rect(), func(child geojson.Object) bool { n++; return true })
-			return fmt.Sprint(n, cl.Indexed(), len(cl.Children()))
+			// the children in the order the search reports them (positions in Children())
+			pos := map[geojson.Object]int{}
+			for i, ch := range cl.Children() {
+				pos[ch] = i
+			}
+			var order []int
+			cl.Search(b.Rect(), func(child geojson.Object) bool { order = append(order, pos[child]); return true })
+			return fmt.Sprint(order, cl.Indexed(), len(cl.Children()))
 		}
 		return "-"
 	case 12:
